@@ -382,6 +382,19 @@ func (c cfgSub) SetContext(ctx context) {
 	}
 }
 
+// reifyChild reifies one entry of an object or a list. An error that does not
+// name a setting yet is reported for that entry.
+func reifyChild(v value, opts *options) (interface{}, error) {
+	r, err := v.reify(opts)
+	if err != nil {
+		if e, ok := err.(Error); !ok || e.Path() == "" {
+			ctx := v.Context()
+			err = raisePathErr(err, v.meta(), "", ctx.path("."))
+		}
+	}
+	return r, err
+}
+
 func (c cfgSub) reify(opts *options) (interface{}, error) {
 	parentFields := opts.activeFields
 	defer func() { opts.activeFields = parentFields }()
@@ -400,7 +413,7 @@ func (c cfgSub) reify(opts *options) (interface{}, error) {
 		for k, v := range fields {
 			opts.activeFields = newFieldSet(parentFields)
 			var err error
-			if m[k], err = v.reify(opts); err != nil {
+			if m[k], err = reifyChild(v, opts); err != nil {
 				return nil, err
 			}
 		}
@@ -410,7 +423,7 @@ func (c cfgSub) reify(opts *options) (interface{}, error) {
 		for i, v := range arr {
 			opts.activeFields = newFieldSet(parentFields)
 			var err error
-			if m[i], err = v.reify(opts); err != nil {
+			if m[i], err = reifyChild(v, opts); err != nil {
 				return nil, err
 			}
 		}
@@ -420,14 +433,14 @@ func (c cfgSub) reify(opts *options) (interface{}, error) {
 		for k, v := range fields {
 			opts.activeFields = newFieldSet(parentFields)
 			var err error
-			if m[k], err = v.reify(opts); err != nil {
+			if m[k], err = reifyChild(v, opts); err != nil {
 				return nil, err
 			}
 		}
 		for i, v := range arr {
 			opts.activeFields = newFieldSet(parentFields)
 			var err error
-			m[fmt.Sprintf("%d", i)], err = v.reify(opts)
+			m[fmt.Sprintf("%d", i)], err = reifyChild(v, opts)
 			if err != nil {
 				return nil, err
 			}
